@@ -42,3 +42,14 @@ Print Assumptions C05_print_parse_roundtrip.
 Print Assumptions C05_printed_tree_parses_to_itself.
 Print Assumptions C05_printed_text_parses_to_the_tree.
 Print Assumptions C05_value_list.
+
+(* the property's own examples, on the model (ASCII classifier, an oracle whose ParseFloat rejects everything): instances, not
+   the theorem - they show that the statements above speak about the grouping the property text means *)
+Require LexWs SqlQueryText Api.
+Example c05_examples_of_the_property_text :
+  let P := fun s : String.string => Api.parse SqlQueryText.o_ex LexWs.cl_ascii ""%string s in
+  (exists e, P "a:b OR c:d AND e:f"%string = PTree e) /\
+  P "a:b OR c:d AND e:f"%string = P "a:b OR (c:d AND e:f)"%string /\ P "a:b OR c:d AND e:f"%string <> P "(a:b OR c:d) AND e:f"%string /\
+  P "NOT a AND b"%string = P "(NOT a) AND b"%string /\ P "NOT a AND b"%string <> P "NOT (a AND b)"%string /\
+  P "+a^2"%string = P "(+a)^2"%string /\ P "+a^2"%string <> P "+(a^2)"%string.
+Proof. vm_compute. repeat split; try reflexivity; try discriminate. eexists; reflexivity. Qed.
